@@ -90,7 +90,7 @@ class Case:
             l.append("validator " + self.validator)
         if self.printer:
             l.append("printer 1")
-        for k in ("highlight", "signals", "paste", "helper_panic_at", "auto_add"):
+        for k in ("highlight", "signals", "paste", "helper_panic_at", "auto_add", "printers"):
             if k in self.meta:
                 l.append("%s %s" % (k, self.meta[k]))
         for ks, cmd in self.binds:
@@ -111,7 +111,13 @@ class Case:
             kv.append("hints=" + ",".join(self.s(c) for c in self.hints))
         for ks, cmd in self.binds:
             kv.append("bind=%s %s" % (ks, cmd))
-        return ";".join(kv) + " | " + " ".join(encb(list(c)) for c in chunks)
+        toks = []
+        prints = self.meta.get("prints") or {}
+        for k, c in enumerate(chunks):
+            toks.append(encb(list(c)))
+            for (t, text) in prints.get(k, []):
+                toks.append("P:" + enc([ord(ch) for ch in text]))
+        return ";".join(kv) + " | " + " ".join(toks)
 
 
 def canon_impl(r):
@@ -198,7 +204,14 @@ def run_tty_cases(res, exe, driver, cases, tmp, tag, compare_output=True, rng=No
         ch = c.chunks if c.chunks is not None else chunks_of(c.keys, rng, typeahead)
         prepared.append((c, ch))
 
-    jobs = [(exe, c.spec(), ch, c.cols, c.meta.get("events")) for c, ch in prepared]
+    jobs = []
+    for c, ch in prepared:
+        ev = c.meta.get("events")
+        if c.meta.get("prints"):
+            ev = dict(ev or {})
+            for k, lst in c.meta["prints"].items():
+                ev[k] = list(ev.get(k, [])) + [("print", t, enc([ord(x) for x in text])) for (t, text) in lst]
+        jobs.append((exe, c.spec(), ch, c.cols, ev))
     # processes, not threads: the driver polls /proc and must not share a GIL
     import multiprocessing
     ctx = multiprocessing.get_context("fork")
@@ -214,7 +227,7 @@ def run_tty_cases(res, exe, driver, cases, tmp, tag, compare_output=True, rng=No
         impl = canon_impl(raw)
         model = canon_model(m) if m is not None else None
         # the hang-up that ends a script is not part of the comparison: drop the reads it ends
-        if model is not None and not c.meta.get("events"):
+        if model is not None and not c.meta.get("events"):      # (prints are part of the model's input, signals are not)
             # what is written around a hang-up is lost with the terminal: compare those reads without output
             nw = lambda rs: [r.split(" W=")[0] if r.startswith("O=hangup") else r for r in rs]
             a = nw(impl) if compare_output else strip_w(impl)
